@@ -19,6 +19,16 @@ func VerifRetainBest(aspects []font.Aspect, query font.Aspect) []int {
 	return fs.retainsBestMatches(cands, query)
 }
 
+// VerifRetainBestIn narrows the candidates cands (indices into a font set having the given
+// aspects, not necessarily all of it nor in order) and returns the retained indices.
+func VerifRetainBestIn(all []font.Aspect, cands []int, query font.Aspect) []int {
+	fs := make(fontSet, len(all))
+	for i, a := range all {
+		fs[i].Aspect = a
+	}
+	return fs.retainsBestMatches(append([]int(nil), cands...), query)
+}
+
 type VerifIndex = systemFontsIndex
 
 func VerifScan(prev VerifIndex, dirs ...string) (VerifIndex, error) {
